@@ -491,4 +491,65 @@ def pumlRecognise (text : Str) : Option (List Str) :=
   | some s => if s.mode = .done then some s.classes.reverse else none
   | none => none
 
+/-! ## 5. Domain of the theorems, as executable checks (used by the driver to report
+whether a case lies inside the hypotheses of the property theorems) -/
+
+def safeB (s : Str) : Bool := scan isSpecial false s == some false
+
+def primOkB : Prim → Bool
+  | .str _ => true
+  | .lit ty t => safeB ty && safeB t
+
+def itemOkB : Item → Bool
+  | .prim p => primOkB p
+  | _ => true
+
+def valOkB : Val → Bool
+  | .one p => primOkB p
+  | .many xs => xs.all itemOkB
+  | _ => true
+
+def objOkB (o : Obj) : Bool :=
+  safeB o.cls && (match o.attrs with
+    | none => true
+    | some as => as.all fun a => safeB a.name && valOkB a.val)
+
+def heapOkB (h : Heap) : Bool := h.all objOkB
+
+def itemRefs : Item → List Nat
+  | .obj t => [t]
+  | _ => []
+
+def valRefs : Val → List Nat
+  | .ref t => [t]
+  | .many xs => xs.flatMap itemRefs
+  | _ => []
+
+def objRefs (o : Obj) : List Nat :=
+  match o.attrs with
+  | none => []
+  | some as => as.flatMap (fun a => valRefs a.val)
+
+def rootId : Root → Nat
+  | .plain i => i
+  | .sub _ _ i => i
+
+def closedB (h : Heap) (roots : List Root) : Bool :=
+  (h.all fun o => (objRefs o).all fun t => (h.get t).isSome) && roots.all fun r => (h.get (rootId r)).isSome
+
+def noAngleB (s : Str) : Bool := s.all fun c => c != '<' && c != '>'
+
+def clsOkB (c : MCls) : Bool :=
+  safeB c.name && noAngleB c.name && c.attrs.all fun a => safeB a.name && safeB a.clsName && safeB a.mult
+
+def nameOkB (n : Str) : Bool := n.all fun c => c != '\n' && c != ' ' && c != '{' && c != '}'
+
+def pclsOkB (c : MCls) : Bool :=
+  nameOkB c.fqn && c.fqn != cl!"class" && nameOkB c.name &&
+    c.attrs.all fun a => nameOkB a.name && nameOkB a.clsName && nameOkB a.clsFqn && nameOkB a.mult
+
+def linetypeOkB : Option Str → Bool
+  | none => true
+  | some l => (l.all fun c => c != '\n') && !hasBrace l
+
 end Dot
